@@ -532,6 +532,104 @@ func (m *LifeModel) ApplyBlock(height uint64, items []*Item, receipts types.Rece
 	}
 }
 
+// ---------------------------------------------------------------- reading a state back
+
+// LifeStateReader is the part of the public state API (state.StateDB) the
+// life-cycle oracles read.
+type LifeStateReader interface {
+	GetCodeSize(common.Address) int
+	GetNonce(common.Address) uint64
+	GetBalance(common.Address) *big.Int
+	GetTokenBalances(common.Address) types.TokenValues
+	GetState(common.Address, common.Hash) []byte
+}
+
+// LifeView is what one state says about the life-cycle contracts: for every
+// address of the snapshot (alive or not) code presence, nonce, coin balance,
+// token balances and every slot any incarnation touched.
+//
+// Slots of addresses whose contract self-destructed (the address may exist
+// again as a plain account after a transfer to it) and of contracts created
+// again at such an address are kept apart ("after destruction").
+type LifeView struct {
+	Text       []byte   // canonical rendering of everything but the slots after destruction, one ';'-terminated record per address
+	After      []byte   // the slots after destruction
+	Diffs      []string // disagreements with the snapshot (model)
+	AfterDiffs []string // disagreements with the snapshot in slots after destruction
+}
+
+// ReadLife reads the addresses and slots of snap from st.
+func ReadLife(st LifeStateReader, snap *LifeSnapshot) *LifeView {
+	v := &LifeView{}
+	var b, ab bytes.Buffer
+	short := func(k string) []byte {
+		t := bytes.TrimLeft([]byte(k), "\x00")
+		if len(t) == 0 {
+			return []byte{0}
+		}
+		if len(t) > 6 {
+			t = t[:6]
+		}
+		return t
+	}
+	for _, a := range snap.Addrs {
+		code := st.GetCodeSize(a)
+		fmt.Fprintf(&b, "%x code=%d nonce=%d bal=%v tokens=[", a[:], code, st.GetNonce(a), st.GetBalance(a))
+		tvs := st.GetTokenBalances(a)
+		sort.Sort(tvs)
+		for _, tv := range tvs {
+			fmt.Fprintf(&b, "%x:%v,", tv.TokenAddr[:], tv.Value)
+		}
+		b.WriteString("]")
+		if (code > 0) != snap.Alive[a] {
+			v.Diffs = append(v.Diffs, fmt.Sprintf("code-presence: contract %x has %d bytes of code, model says alive=%v", a[:6], code, snap.Alive[a]))
+		}
+		after := !snap.Alive[a] || snap.Births[a] > 1
+		keys := make([]string, 0, len(snap.Slots[a]))
+		for k := range snap.Slots[a] {
+			keys = append(keys, k)
+		}
+		sort.Strings(keys)
+		for _, k := range keys {
+			got := new(big.Int).SetBytes(st.GetState(a, SlotHash(k)))
+			want := snap.Slots[a][k]
+			d := ""
+			if got.Text(16) != want {
+				d = fmt.Sprintf("slot-value: contract %x (alive=%v, creations at this address %d) slot %x reads %s, model %s", a[:6], snap.Alive[a], snap.Births[a], short(k), got.Text(16), want)
+			}
+			if after {
+				fmt.Fprintf(&ab, "%x %x=%s;", a[:], short(k), got.Text(16))
+				if d != "" {
+					v.AfterDiffs = append(v.AfterDiffs, d)
+				}
+				continue
+			}
+			fmt.Fprintf(&b, " %x=%s", short(k), got.Text(16))
+			if d != "" {
+				v.Diffs = append(v.Diffs, d)
+			}
+		}
+		b.WriteString(";")
+	}
+	v.Text, v.After = b.Bytes(), ab.Bytes()
+	return v
+}
+
+// FirstLifeDiff names the first record in which two renderings differ.
+func FirstLifeDiff(a, b []byte) string {
+	as, bs := bytes.Split(a, []byte(";")), bytes.Split(b, []byte(";"))
+	for i := range as {
+		if i >= len(bs) || !bytes.Equal(as[i], bs[i]) {
+			o := []byte("<nothing>")
+			if i < len(bs) {
+				o = bs[i]
+			}
+			return fmt.Sprintf("%s  VERSUS  %s", as[i], o)
+		}
+	}
+	return "lengths differ"
+}
+
 // ---------------------------------------------------------------- generator
 
 // LifeGen generates life-cycle transactions through a Gen (shared nonces,
